@@ -2,7 +2,8 @@
 
 extract(relpath, qualname) -> Extracted(node, source, sha256, lineno, end_lineno)
 
-What extraction drops (and nothing else): decorators (recorded), annotations, docstrings.
+What extraction drops (and nothing else): decorators (recorded; only the ones that leave the body's meaning alone are accepted,
+any other decorator makes the contract stale), annotations, docstrings.
 Logging calls are dropped later by the executor (callee table), not here.
 """
 from __future__ import annotations
@@ -69,6 +70,11 @@ def find_def(tree: ast.AST, qualname: str):
     return cur
 
 
+_PLAIN_DECORATORS = {"staticmethod", "classmethod", "property", "abc.abstractmethod", "abstractmethod", "contextlib.contextmanager",
+                     "contextmanager", "functools.wraps", "typing.overload", "overload", "functools.cached_property", "cached_property",
+                     "abc.abstractproperty", "dataclasses.dataclass"}
+
+
 def extract(relpath: str, qualname: str) -> Extracted:
     try:
         src, tree = load_module(relpath)
@@ -79,6 +85,13 @@ def extract(relpath: str, qualname: str) -> Extracted:
         raise StaleContract(f"{relpath}:{qualname} not found")
     seg = ast.get_source_segment(src, node) or ""
     decos = [ast.unparse(d) for d in node.decorator_list]
+    # decorators are dropped, so only those that leave the body's meaning alone may be present: a wrapping decorator (a cache, a
+    # retry, ...) makes the name denote something else than the body that is verified or inlined here
+    for d in decos:
+        base = d.split("(")[0]
+        if base in _PLAIN_DECORATORS or base.endswith(".setter") or base.endswith(".getter"):
+            continue
+        raise StaleContract(f"{relpath}:{qualname} is wrapped by @{d}: its body is no longer what the name denotes (contract out of date)")
     return Extracted(relpath, qualname, node, seg, hashlib.sha256(seg.encode()).hexdigest(),
                      node.lineno, node.end_lineno, decos, tree)
 
